@@ -189,6 +189,7 @@ pub fn gen_setup(rng: &mut Rng, n: usize, out: &mut Vec<String>) {
     { let u = format!("ldapi://{}", sock_enc);
       for std in ["none", "unix"] { let line = format!("setup {} ldapi {} none 1 {} none", hex(u.as_bytes()), hex(sock_enc.as_bytes()), std); if !out.iter().any(|x| *x == line) { out.push(line); } } }
     out.push(format!("setupx {} unreachable", hex(b"ldap://127.0.0.1:38999")));
+    out.push(format!("setupx {} dns-stall", hex(b"ldap://l3h-no-such-host.invalid:389")));
     out.push(format!("setupx {} silent-starttls", hex(format!("ldap://127.0.0.1:{}", P_SILENT).as_bytes())));
     out.push(format!("setupx {} silent-starttls-prestream", hex(b"ldap://localhost")));
     out.push(format!("setupx {} silent-ldaps", hex(format!("ldaps://127.0.0.1:{}", P_SILENT).as_bytes())));
@@ -199,6 +200,34 @@ pub fn run_setup(lane: &str, args: &[&str]) -> (String, Option<String>) {
     let nt = net();
     if !nt.ok { return ("skipped".into(), None); }
     let url = String::from_utf8(unhex(args[0])).unwrap();
+    if lane == "setupx" && args[1] == "dns-stall" {
+        // C18 "a connection timeout bounds the whole establishment", the name lookup included, through both facades (F42). The resolver is
+        // stalled by a UDP socket on 127.0.0.1:53 that reads queries and never answers; where that cannot be arranged (not root, another
+        // resolver configured, the port taken by a concurrent run) the case is skipped
+        let conf = std::fs::read_to_string("/etc/resolv.conf").unwrap_or_default();
+        if !conf.lines().any(|l| l.trim() == "nameserver 127.0.0.1") { return ("skipped".into(), None); }
+        let dns = match std::net::UdpSocket::bind("127.0.0.1:53") { Ok(s) => s, Err(_) => return ("skipped".into(), None) };
+        std::env::set_var("RES_OPTIONS", "timeout:2 attempts:1");
+        dns.set_read_timeout(Some(Duration::from_millis(200))).ok();
+        let queries = std::sync::Arc::new(std::sync::atomic::AtomicUsize::new(0)); let stop = std::sync::Arc::new(std::sync::atomic::AtomicBool::new(false));
+        let th = { let (q, s) = (queries.clone(), stop.clone()); std::thread::spawn(move || { let mut buf = [0u8; 1500]; while !s.load(std::sync::atomic::Ordering::SeqCst) { if dns.recv_from(&mut buf).is_ok() { q.fetch_add(1, std::sync::atomic::Ordering::SeqCst); } } }) };
+        let st = || LdapConnSettings::new().set_conn_timeout(Duration::from_millis(300));
+        let u1 = url.clone(); let t0 = std::time::Instant::now();
+        let ra = nt.rt.block_on(async move { tokio::time::timeout(Duration::from_secs(8), LdapConnAsync::with_settings(st(), &u1)).await.map(|r| r.is_ok()) });
+        let ta = t0.elapsed();
+        let u2 = url.clone(); let t1 = std::time::Instant::now();
+        let rs = std::thread::spawn(move || ldap3::LdapConn::with_settings(st(), &u2).is_ok()).join();
+        let ts = t1.elapsed();
+        let stalled = queries.load(std::sync::atomic::Ordering::SeqCst) > 0;
+        stop.store(true, std::sync::atomic::Ordering::SeqCst); th.join().ok();
+        if !stalled { return ("skipped".into(), None); }
+        let bound = Duration::from_millis(1500);
+        let o = if ra != Ok(false) || !matches!(rs, Ok(false)) { Some("establishment towards a name that does not resolve did not fail".to_string()) }
+            else if ta > bound { Some(format!("async facade: conn_timeout 300 ms, the call returned after {} ms", ta.as_millis())) }
+            else if ts > bound { Some(format!("sync facade: conn_timeout 300 ms, LdapConn::with_settings returned after {} ms (the async call: {} ms) - the connection timeout does not bound the establishment while the name lookup is in progress", ts.as_millis(), ta.as_millis())) }
+            else { None };
+        return (format!("async={}ms sync={}ms", ta.as_millis() / 100 * 100, ts.as_millis() / 100 * 100), o);
+    }
     if lane == "setupx" {
         let (starttls, tmo) = if args[1].starts_with("silent-starttls") { (true, Some(400u64)) } else if args[1].starts_with("silent-ldaps") { (false, Some(400)) } else { (false, Some(1500)) };
         let mut st = LdapConnSettings::new().set_starttls(starttls); if let Some(t) = tmo { st = st.set_conn_timeout(Duration::from_millis(t)); }
